@@ -102,7 +102,7 @@ prop("C19", "proof", "Lean 4 theorems over all byte strings + differential corre
      theorems=["PG.C19_line_info", "PG.C19_counts", "PG.C19_last_header", "PG.C19_valid"])
 prop("C20", "other", "compile-time Send+Sync assertions + concurrent differential run",
      "The harness instantiates Send+Sync assertions for every public handle and result type (losing one breaks the build and is reported); query batches run on 2..16 threads against one shared mapper/cache must equal the sequential answers, which are tied to the Lean model.",
-     "Partial: auto traits and real interleavings are facts about Rust, not expressible in the model.", oracle=True,
+     "Partial: auto traits and real interleavings are facts about Rust, not expressible in the model.", oracle=True, theorems=["PG.C20_order_indep", "PG.C20_frames_order_indep"],
      explanation="Send/Sync are Rust type-system facts and interleavings are runtime behaviour; checked by compile-time assertions and a randomised concurrent run against sequential answers tied to the Lean model.")
 
 # ---------------------------------------------------------------------------
